@@ -362,20 +362,33 @@ Section Auth2.
   Qed.
 
   (* ---- apply --------------------------------------------------------------- *)
-  Lemma a_kubectl_apply s l : In (l_id l) (apply_ids pl) -> stepa s (fst (kubectl_apply sc s l)).
-  Proof.
-    intros Hin. unfold kubectl_apply. cbv zeta.
-    assert (MC : forall s0, stepa s0 (maybe_cancel sc s0 (l_id l))) by (intros; apply stepa_maybe_cancel).
-    assert (RQ : forall s0 s1 r ok, r_tbl s1 = r_tbl s0 -> inv (r_cl s1) = inv (r_cl s0) -> r_tr s1 = r_tr s0 ->
+  Section ApplyOf.
+    Variable l : lobj.
+    Hypothesis Hin : In (l_id l) (apply_ids pl).
+
+    Let MC : forall s0, stepa s0 (maybe_cancel sc s0 (l_id l)).
+    Proof. intros; apply stepa_maybe_cancel. Qed.
+    Let RQ : forall s0 s1 r ok, r_tbl s1 = r_tbl s0 -> inv (r_cl s1) = inv (r_cl s0) -> r_tr s1 = r_tr s0 ->
                 (match r with RCreate i _ | RPatch i _ _ => i = l_id l | _ => False end) ->
-                stepa s0 (log_req s1 r ok)).
-    { intros s0 s1 r ok A B C D. apply stepa_req; try assumption.
-      destruct r; cbn; try contradiction; subst; exact Hin. }
-    destruct (ssa_mode sc).
-    - destruct (faulted sc _); cbn [fst]; [tr; [apply MC|apply RQ; cbn; auto]|].
+                stepa s0 (log_req s1 r ok).
+    Proof.
+      intros s0 s1 r ok A B C D. apply stepa_req; try assumption.
+      destruct r; cbn; try contradiction; subst; exact Hin.
+    Qed.
+
+    Lemma a_ssa_patch s n : stepa s (fst (ssa_patch sc s l n)).
+    Proof.
+      unfold ssa_patch. cbv zeta.
+      destruct (faulted sc (FStream _ _)); cbn [fst]; [tr; [apply MC|apply RQ; cbn; auto]|].
+      destruct (faulted sc (FApply _)); cbn [fst]; [tr; [apply MC|apply RQ; cbn; auto]|].
       destruct (find_obj _ _); destruct (match o_dry (sc_opts sc) with DServer => true | _ => false end); cbn [fst];
         (tr; [apply MC|apply RQ; cbn; auto]).
-    - pose proof (stepa_get_obj sc pl locals prev0 s (l_id l)) as G.
+    Qed.
+
+    Lemma a_csa_apply s : stepa s (fst (csa_apply sc s l)).
+    Proof.
+      unfold csa_apply. cbv zeta.
+      pose proof (stepa_get_obj sc pl locals prev0 s (l_id l)) as G.
       destruct (get_obj sc s (l_id l)) as [s1 g]. cbn [fst] in G.
       destruct g; cbn [fst]; try exact G.
       + destruct (is_dry _); cbn [fst]; [exact G|].
@@ -383,7 +396,16 @@ Section Auth2.
       + destruct (negb (patch_needed c l)); cbn [fst]; [exact G|].
         destruct (is_dry _); cbn [fst]; [exact G|].
         destruct (faulted sc _); cbn [fst]; (tr; [exact G|]; tr; [apply MC|apply RQ; cbn; auto]).
-  Qed.
+    Qed.
+
+    Lemma a_kubectl_apply_l s : stepa s (fst (kubectl_apply sc s l)).
+    Proof.
+      apply (kubectl_apply_step sc l stepa (stepa_trans sc pl locals prev0) a_ssa_patch a_csa_apply).
+    Qed.
+  End ApplyOf.
+
+  Lemma a_kubectl_apply s l : In (l_id l) (apply_ids pl) -> stepa s (fst (kubectl_apply sc s l)).
+  Proof. intros Hin. apply a_kubectl_apply_l. exact Hin. Qed.
 
   Lemma a_policy_apply_filter s i : stepa s (fst (policy_apply_filter sc s i)).
   Proof.
